@@ -5,7 +5,7 @@ From Coq Require Import NArith ZArith List Bool Lia ZifyBool ZifyNat ZifyN.
 From Morlock.Model Require Import Bits Attacks Move Position Zobrist Board Fen Abs Engine EngineSpec.
 From Morlock.Spec Require Import Chess Game.
 From Morlock.Lemmas Require Import PositionLemmas MoveRefines2 MoveGen7 BoardHeap1 BoardHeap3
-  FenLemmas1 FenLemmas2 FenLemmas3 EngineLemmas1.
+  FenLemmas1 FenLemmas2 FenLemmas3 GameLemmas2 EngineLemmas1.
 Import ListNotations.
 Open Scope N_scope.
 
@@ -38,7 +38,7 @@ Proof.
   2,3: inversion H; subst; split; [discriminate|auto].
   destruct (new_board z [] pos t (Z.to_N np) fm) as [h b] eqn:Hnb. inversion H; subst. clear H.
   split; [|discriminate]. intros _.
-  destruct (decode_clocks _ _ _ _ _ Hd) as [[Hnp _] _].
+  destruct (decode_clocks _ _ _ _ _ Hd) as [[Hnp Hnp'] _].
   pose proof (decode_wf _ _ Hd) as Hwfv. unfold wf_value in Hwfv.
   assert (Ht : t = White \/ t = Black) by (unfold White, Black; lia).
   pose proof (wf_new z pos t (Z.to_N np) fm h b Ht Hnb) as Hwf.
@@ -48,7 +48,7 @@ Proof.
   - exact Hwf.
   - unfold GRel. cbn [fst snd e_heap e_board]. unfold a_noprogress, abs. cbn [a_data a_turn a_moves].
     rewrite Hdata, Hturn, Hmoves. cbn [estates fst hd snd g_start g_pos g_turn g_past g_clock g_fullmove].
-    repeat split. lia.
+    repeat split. unfold clk_rel, max_int. unfold max_int64 in Hnp'. lia.
   - intros [pos' [t' [np' [fm' [Hd' Hleg]]]]]. rewrite Hd in Hd'. inversion Hd'; subst pos' t' np' fm'.
     split; cbn [e_heap e_board]; [now rewrite Hpos, Hturn|now rewrite Hres].
 Qed.
@@ -90,7 +90,9 @@ Proof.
   destruct (grel_now _ _ g Hwf Hrel) as [Epos [Eturn [Eclk [Emv _]]]].
   pose proof Hwf as [_ [_ [_ Ht]]]. unfold turn_ok, White, Black in Ht.
   split; [|split; assumption].
-  unfold eng_position. rewrite Eclk, Emv.
+  assert (Eclk' : Z.of_N (b_noprogress (e_heap e) (e_board e)) = g_clock g).
+  { apply clk_rel_exact; [exact Eclk|]. unfold max_int64 in Hc. unfold max_int. lia. }
+  unfold eng_position. rewrite Eclk', Emv.
   apply decode_encode; try assumption.
   - exact (wf_inv _ _ (wf_b_WF _ _ Hleg)).
   - lia.
